@@ -89,9 +89,13 @@ func mayParam(p P) (bool, string) {
 		}
 	}
 	if p.Type == "array" && p.In == "header" {
-		// a header array is one comma separated field value
-		if len(p.V) > 0 && (hasOuterSpace(string(p.V[0])) || hasOuterSpace(string(p.V[len(p.V)-1]))) {
-			return true, "outer whitespace of a header field value is not carried by HTTP"
+		// a header array is one field value holding a separated list: HTTP does not carry white space
+		// around the value, and its list syntax (RFC 9110 5.6.1) lets a recipient ignore white space
+		// around items and empty items
+		for _, v := range p.V {
+			if v == "" || strings.TrimSpace(string(v)) != string(v) {
+				return true, "an empty item or white space around an item is not significant in an HTTP list field"
+			}
 		}
 	}
 	return false, ""
@@ -658,9 +662,6 @@ func knownSuffix(c *Case, res *result, class string, p *P, got any) string {
 		// declared header name that is not in canonical form is looked up verbatim in http.Header
 		if p != nil && http.CanonicalHeaderKey(p.Name) != p.Name && isZero(got) {
 			return "/declared-name-not-canonical"
-		}
-		if p != nil && class == "header-array-differs" && p.CF != "multi" && p.Items == "string" && hasTrimmable(*p) && isSpaceTrimmedDrop(*p, got) {
-			return "/separated-items-trimmed-or-dropped"
 		}
 	case "query-array-differs", "form-array-differs":
 		if p != nil && class == "form-array-differs" && bareType(c.Consumes) == "application/x-www-form-urlencoded" && c.Method != "POST" && c.Method != "PUT" && c.Method != "PATCH" && isZero(got) && len(p.V) > 0 {
